@@ -158,7 +158,15 @@ impl BiStreamRequestHandler {
         // Read Request
         //
 
+        #[cfg(bmwill_anemo_verif)]
+        let mut verif_rpc = crate::verif::RpcTrace::new(
+            "s",
+            self.connection.stable_id(),
+            self.send_stream.get_ref().id().index(),
+        );
         let mut request = read_request(&mut self.recv_stream).await?;
+        #[cfg(bmwill_anemo_verif)]
+        verif_rpc.event("decoded", crate::verif::describe_request(&request));
 
         // TODO maybe provide all of this via a single ConnectionMetadata type
         //
@@ -190,8 +198,12 @@ impl BiStreamRequestHandler {
         // Write Response
         //
 
+        #[cfg(bmwill_anemo_verif)]
+        verif_rpc.event("returned", crate::verif::describe_response(&response));
         write_response(&mut self.send_stream, response).await?;
         self.send_stream.get_mut().finish()?;
+        #[cfg(bmwill_anemo_verif)]
+        verif_rpc.event("finished", String::new());
         self.send_stream.get_mut().stopped().await?;
 
         Ok(())
